@@ -323,6 +323,7 @@ func (w *walker) drain() *int {
 		w.finish(c)
 	}
 	rounds := 250
+	seenStates := map[string]int{}
 	for round := 0; round < rounds; round++ {
 		if s.Cfg.Max == nil && len(s.Project().Trials) >= 9 && !expCompleted(s.Project()) {
 			return nil // without maxTrialCount (and goal not reached) the experiment may run for ever
@@ -378,6 +379,17 @@ func (w *walker) drain() *int {
 		after := s.Project()
 		if !envActed && after.Writes == before.Writes && sameStore(before, after) {
 			return &start
+		}
+		// every round syncs all caches and runs every controller without faults, so a round is a function of the stored
+		// content: a content that comes back for the third time is a cycle (a hot loop), no need to go on for 250 rounds
+		if !envActed {
+			k := after
+			k.Writes, k.NRpc, k.CTChange = 0, 0, false
+			js, _ := json.Marshal(k)
+			seenStates[string(js)]++
+			if seenStates[string(js)] >= 3 {
+				return nil
+			}
 		}
 	}
 	return nil
